@@ -269,6 +269,9 @@ func decide(p Plan) error {
 	}
 	close(start)
 	wg.Wait()
+	if r := ev.RaceCheck(); r != "" {
+		return fmt.Errorf("the race detector reported a data race while this plan ran:\n%s", r)
+	}
 	for _, e := range errs {
 		if e != nil {
 			return e
